@@ -48,6 +48,34 @@ func properties() map[string]*PropertyDef {
 		LevelNote:   "assumed: io.Reader/io.Writer interface contracts (specs/io.spec), fmt.Errorf returns non-nil; trusted: go/ssa lowering, govc encoding, solvers",
 		Technique:   "contract-based deductive verification (govc): object invariant + two-state postconditions with a ghost call log, WP over go/ssa, z3/cvc5",
 	})
+	ps = append(ps, &PropertyDef{
+		ID:       "C12",
+		Patterns: []string{"./netutil"},
+		Funcs: []string{
+			"netutil.IPToAddr", "netutil.IPToAddrNoMapped", "netutil.IPNetToPrefix", "netutil.IPNetToPrefixNoMapped",
+			"netutil.NetAddrToAddrPort", "netutil.PreferIPv4", "netutil.PreferIPv6",
+		},
+		Lemmas: []string{"ipnetMembership4", "maskByteMembership", "prefer4StrictWeakOrder", "prefer6StrictWeakOrder"},
+		NeedsClauses: map[string][]string{
+			"netutil.IPToAddr":         {"nil_rejected", "v4_accepts", "v4_same_addr", "v6_accepts", "v6_same_addr"},
+			"netutil.IPToAddrNoMapped": {"accepts", "unmapped", "v6_same_addr"},
+			"netutil.IPNetToPrefix":    {"addr_v4", "addr_v6", "valid", "mask_is_prefix"},
+			"netutil.IPNetToPrefixNoMapped": {"addr_v4", "addr_v6", "valid", "mask_is_prefix"},
+			"netutil.NetAddrToAddrPort": {"no_addrport", "same_port", "same_addr", "unmapped"},
+			"netutil.PreferIPv4":        {"order"},
+			"netutil.PreferIPv6":        {"order"},
+		},
+		Assumptions: []string{
+			"net.IP.To4/To16, net.IPMask.Size, netip.AddrFromSlice/PrefixFrom/Prefix.IsValid/Addr.Unmap/Addr.Compare/AddrPortFrom by their documented byte-level meaning (specs/net.spec, specs/netip.spec)",
+			"Addr.Compare is a total order on the addresses compared (requires clause of the ordering lemmas); slices.SortFunc sorts by a strict weak ordering given as cmp(a,b) < 0",
+			"subnet membership: IPNet contains x iff x[i]&m[i] == ip[i]&m[i] for all i; Prefix contains x iff the top Bits() bits agree (netip documentation); the statement is scoped to masks as long as the converted address",
+			"zones: net.IP carries no zone; results are proved zone-free",
+		},
+		Explanation: "loop-free conversions proved against the byte-level meaning of net.IP; mask/prefix membership equivalence and the strict-weak-order facts are lemmas over the same spec functions that the postconditions use",
+		LevelText:   "proof: for every net.IP / *net.IPNet / net.Addr value the conversions keep the address bytes and family, reject what is not an address of the family, and accept only masks that are a contiguous run of ones whose length is the prefix length; the comparators' sign is a strict weak order with the documented class order",
+		LevelNote:   "assumed library contracts listed under assumptions (net, netip); callbacks through the AddrPort() interface are arbitrary; trusted: go/ssa lowering, govc encoding, solvers",
+		Technique:   "contract-based deductive verification (govc): modular postconditions over abstract netip values + lemmas, WP over go/ssa, z3/cvc5",
+	})
 	out := map[string]*PropertyDef{}
 	for _, p := range ps {
 		out[p.ID] = p
@@ -55,6 +83,3 @@ func properties() map[string]*PropertyDef {
 	return out
 }
 
-func (e *Engine) verifyLemma(name string) *FuncResult {
-	return &FuncResult{Key: "lemma:" + name, Unsupported: "lemmas not implemented"}
-}
